@@ -248,6 +248,27 @@ def no_collapse(ctx):
     ctx.check(names == ["types.MethodType", "type({}.pop)"], t[0], "Hasher.save only rewrites bound methods / builtin methods (%s)" % names, "Hasher.save rewrites objects of types %s" % names)
     for a in rebinds:
         ctx.check(isinstance(a.value, ast.Call) and call_name(a.value) == "_MyHash" and any(i is t[0] for i in ancestors(a)), a, "methods are replaced by a _MyHash(name, instance[, class]) proxy")
+    # what identifies the method: its name and its receiver - the module's NAME for a module-level builtin, the
+    # instance itself (and its class) otherwise.  Anything coarser merges same-named methods of different receivers.
+    obj_ = f.args.args[1].arg
+    for a in rebinds:
+        if not (isinstance(a.value, ast.Call) and call_name(a.value) == "_MyHash"):
+            continue
+        args_ = [unparse(x) for x in a.value.args]
+        fc = [x for x in cond_facts(g.conditions_at(g.nodes_of(a))) if "inst" in x[0]]
+        if ("type(inst) is type(pickle)", True) in fc:
+            ctx.check(args_ == ["func_name", "inst.__name__"], a, "a builtin of a module is identified by (function name, module name)",
+                      "a module-level builtin is hashed as _MyHash(%s): same-named builtins of different modules (math.pow / operator.pow) share one digest" % ", ".join(args_))
+        elif ("inst is None", True) in fc:
+            ctx.check(args_ == ["func_name", "inst"] and ("type(inst) is type(pickle)", False) in fc, a, "an unbound builtin by (function name, None)", "unexpected proxy %s under %s" % (args_, fc))
+        else:
+            ctx.check(args_ == ["func_name", "inst", "cls"] and ("type(inst) is type(pickle)", False) in fc and ("inst is None", False) in fc, a, "a bound method by (function name, instance, class)",
+                      "a bound method is hashed as _MyHash(%s) under %s: methods of different instances or classes share one digest" % (", ".join(args_), fc))
+    for nm, want in (("inst", obj_ + ".__self__"), ("cls", obj_ + ".__self__.__class__")):
+        d_ = [a for a in nodes_of_type(f, ast.Assign) if nm in stores_to(a)]
+        ctx.check(bool(d_) and all(unparse(a.value) == want for a in d_), d_[0] if d_ else f, "%s = %s" % (nm, want), "%s is computed as %s" % (nm, [unparse(a.value) for a in d_]))
+    fn_defs = [a for a in nodes_of_type(f, ast.Assign) if "func_name" in stores_to(a)]
+    ctx.check(len(fn_defs) >= 1 and all(unparse(a.value) in (obj_ + ".__func__.__name__", obj_ + ".__name__") for a in fn_defs), fn_defs[0] if fn_defs else f, "func_name is the method's own name")
     base = [c for c in calls_in(f) if call_name(c) == "Pickler.save"]
     ctx.check(bool(base) and g.every_path_from([g.entry], g.nodes_of_all(base)), base[0] if base else f, "everything else goes to the base pickler unchanged, on every path")
     # dispatch overrides: enumerate
